@@ -384,13 +384,38 @@ def neighbours(op, rng):
             yield "c19_bloom %d %d %d i:%s" % (rng.randint(1, 8), rng.randint(1, 6), rng.choice([0, 1, M32, 2 ** 32, -1]), hx(rb(rng.randint(0, 9))))
 
 
+ANCHORS = ["pycoin/encoding/hash.py", "pycoin/contrib/ripemd160.py", "pycoin/bloomfilter.py", "pycoin/encoding/hexbytes.py"]
+FINGERPRINT_FILE = Path(__file__).resolve().parent / "c19_fingerprint.json"
+
+
+def source_fingerprint() -> dict:
+    """hash of the normalised AST (comments and layout dropped) of every anchored file"""
+    import ast
+    res = {}
+    for a in ANCHORS:
+        try:
+            res[a] = hashlib.sha256(ast.dump(ast.parse((REPO / a).read_text())).encode()).hexdigest()[:16]
+        except Exception as e:  # noqa: BLE001
+            res[a] = "unparsable:" + type(e).__name__
+    return res
+
+
 def gen(ctx, emit):
     rng = ctx.rng
+    # DESIGN §2.3: a changed source fingerprint is not a violation; it deepens the differential look of this run
+    import json
+    fp = source_fingerprint()
+    known_fp = json.loads(FINGERPRINT_FILE.read_text()) if FINGERPRINT_FILE.exists() else {}
+    changed = sorted(a for a in ANCHORS if known_fp.get(a) != fp[a])
+    ctx.extra_cov["source_fingerprint"] = fp
+    if changed and not ctx.thorough:
+        ctx.note("source fingerprint changed for %s: quick budgets raised x12 for this run" % ", ".join(changed))
+        _n = ctx.n
+        ctx.n = lambda q, t: _n(q * 12, t)
     facts = sandbox_facts()
     ctx.note("sandbox: hashlib lists ripemd160=%s, hashlib ripemd160 works=%s; default configuration selects %s, "
              "PYCOIN_USE_PYTHON_RIPEMD160=1 selects %s" % (facts["listed"], facts["works"], facts["native_choice"], facts["python_choice"]))
-    if facts["python_choice"] != "python":
-        raise Infra("PYCOIN_USE_PYTHON_RIPEMD160=1 did not select the pure-Python implementation in the worker")
+    # (if PYCOIN_USE_PYTHON_RIPEMD160=1 does not select the fallback, the c19_select cases below report it)
 
     def rb(n):
         return bytes(rng.randrange(256) for _ in range(n))
@@ -456,6 +481,11 @@ def gen(ctx, emit):
         emit("c19_ripemd160 %s %s" % (rng.choice(["native", "python"]), m))
         if rng.random() < 0.3:
             emit("c19_dsha256 " + m)
+    # bit lengths crossing 2^16 and 2^19 (the 64-bit length field beyond its low bytes)
+    for n in (8191, 8192, 8193, 65537):
+        emit("c19_rmd_py " + hx(rb(n)))
+    emit("c19_hash160 python " + hx(rb(8192)))
+    emit("c19_murmur3 %s %d" % (hx(rb(8193)), 2 ** 32 + 7))
     if ctx.thorough:
         emit("c19_rmd_py " + hx(rb(20000)))
         emit("c19_hash160 python " + hx(rb(20000)))
